@@ -153,6 +153,11 @@ static void nv_cache_resize(struct nv_data* c, int64_t rows)
   c->rows = rows; c->begin = 0; c->end = 0; c->scaled = 0; c->kind = 0; c->src = 0; c->stats = 0; c->mode = 0;
   if (nv_nondet__Bool()) nv_thrown = 1;
 }
+/* tensorNd_t{}: no rows, nothing held; `cache = std::move(tensor)` (noexcept move assignment of an owning tensor, ASSUMED contract of
+ * tensor_vector_storage_t): the destination takes the dimensions and the contents of the source, nothing can throw */
+static struct nv_data nv_cache_empty(void)
+{ struct nv_data d; d.kind = 0; d.src = 0; d.begin = 0; d.end = 0; d.scaled = 0; d.stats = 0; d.mode = 0; d.cached = 0; d.buffer = 0; d.rows = 0; return d; }
+static struct nv_data* nv_cache_assign(struct nv_data* dst, struct nv_data src) { *dst = src; return dst; }
 uint64_t nv_cache_maps;
 /* map(elements, chunk, task) (C17: tiles [0, elements), rethrows a task's exception) running the chunk task (contract: cache_*_task) */
 static void nv_cache_map(struct nv_xiter* it, struct nv_data* c, int32_t kind, uint64_t stats, int64_t elements, int64_t chunk)
